@@ -3,7 +3,27 @@ HOOK_COMMITS = []
 
 PARTIAL_NOT_YET = 'check not built yet in this session (work in progress; see DESIGN.md section 6)'
 
+NOTE_ROUTING = ('trusted: Coq kernel, extraction+driver, Go harness; regexp is an oracle (tabulated with the Go regexp package); '
+                'sort.Sort modelled as stable insertion sort; the tie between model and /repo is differential testing on '
+                'generated tables and requests (both routers), not a proof about the Go code')
+TECH = 'Coq theorem on executable model + differential correspondence with extracted model'
+
 META = {
+    'C01': dict(
+        text='Theorems Props.C01_curly and Props.C01_matcher (Coq, no axioms): for every regex oracle, table and request, if '
+             'the model of dispatch under CurlyRouter invokes route r then r is registered and, its template being one of the '
+             'documented forms, the request is admitted by the declaration (method, path template incl. regex variables, '
+             'suffix, custom verb, segment count / tail wildcard, Consumes, Produces, conditions); the token matcher decides '
+             'exactly structural admission. RouterJSR311: the same specification predicate (S.jsr_admits, extracted from Coq) '
+             'is evaluated on every route the real router invokes and the JSR311 model is compared with the implementation; '
+             'its Coq proof is not done yet (partial).',
+        design_ref='DESIGN.md section 6, C01', note=NOTE_ROUTING, technique=TECH),
+    'C14': dict(
+        text='Theorem Props.C14_curly (Coq, no axioms): under CurlyRouter, for every table, request and path p with a non-slash '
+             'byte, routing p and p + "/" gives the same outcome (invoked route, parameter values, error status, Allow list), by '
+             'tokenize (p ++ "/") = tokenize p. RouterJSR311 (templates without tail wildcard): paired dispatches on the '
+             'implementation compared with each other and with the model; Coq proof for JSR311 not done yet (partial).',
+        design_ref='DESIGN.md section 6, C14', note=NOTE_ROUTING, technique=TECH),
     'C08': dict(
         text='Theorem Props.C08 (Coq, no axioms): for every ToLower oracle, CORS configuration, container method table, '
              'request and every continuation of the chain, the model of cors_filter.go adds only Access-Control-* headers, '
